@@ -387,6 +387,74 @@ def bad_copy(ctx: Ctx, only=None):
                 ctx.report(f"a rejected value was recorded anyway in `{expr}` (flags {flags}): {r['session_exc'] or after[-200:]}", {"kind": "badcopy", "expr": expr, "flags": flags})
 
 
+# ----------------------------------------------------------------------------- S: the recording sites in the source (fail-closed)
+def static_clone_check(ctx: Ctx):
+    """Model/Heap.v's recorder stores clone(v) at every observation.  Read the recording sites from the CURRENT source: every value
+    stored into `_new_value` of a bound / collection snapshot, and the value handed to Adapter.assign by an == snapshot, must be the
+    result of clone(...).  Any other shape is reported as a broken tie (the mutation schedules then search for a failing input)."""
+    from ..core import REPO
+    base = REPO / "src" / "inline_snapshot" / "_snapshot"
+    problems, sites = [], 0
+
+    def is_clone(n):
+        return isinstance(n, ast.Call) and isinstance(n.func, ast.Name) and n.func.id == "clone" and len(n.args) == 1
+
+    def stored_ok(n):
+        if is_clone(n):
+            return True
+        if isinstance(n, ast.List):
+            return all(is_clone(e) for e in n.elts)
+        if isinstance(n, ast.Dict) and not n.keys:
+            return True
+        return isinstance(n, ast.Name) and n.id == "undefined"
+
+    def is_new_value(n):
+        return isinstance(n, ast.Attribute) and n.attr == "_new_value" and isinstance(n.value, ast.Name) and n.value.id == "self"
+
+    for fn in ("min_max_value.py", "collection_value.py"):
+        try:
+            tree = ast.parse((base / fn).read_text())
+        except (OSError, SyntaxError) as e:
+            problems.append(f"{fn}: cannot be read ({e})")
+            continue
+        for n in ast.walk(tree):
+            if isinstance(n, ast.Assign) and any(is_new_value(t) for t in n.targets):
+                sites += 1
+                if not stored_ok(n.value):
+                    problems.append(f"{fn}:{n.lineno}: `self._new_value = {ast.unparse(n.value)}` does not store a clone")
+            if isinstance(n, ast.Call) and isinstance(n.func, ast.Attribute) and n.func.attr in ("append", "insert", "extend") and is_new_value(n.func.value):
+                sites += 1
+                if not all(is_clone(a) for a in n.args[-1:]):
+                    problems.append(f"{fn}:{n.lineno}: `{ast.unparse(n)}` does not store a clone")
+    try:
+        tree = ast.parse((base / "eq_value.py").read_text())
+        calls = [n for n in ast.walk(tree) if isinstance(n, ast.Call) and isinstance(n.func, ast.Attribute) and n.func.attr == "assign"]
+        sites += len(calls)
+        if not calls:
+            problems.append("eq_value.py: no call of adapter.assign found")
+        for n in calls:
+            if len(n.args) != 3 or not is_clone(n.args[2]):
+                problems.append(f"eq_value.py:{n.lineno}: `{ast.unparse(n)}` does not hand a clone of the compared value to the adapter")
+    except (OSError, SyntaxError) as e:
+        problems.append(f"eq_value.py: cannot be read ({e})")
+    try:
+        src = (base / "generic_value.py").read_text()
+        tree = ast.parse(src)
+        fn = [n for n in tree.body if isinstance(n, ast.FunctionDef) and n.name == "clone"]
+        ok = bool(fn) and any(isinstance(n, ast.Call) and ast.unparse(n.func) == "copy.deepcopy" for n in ast.walk(fn[0])) \
+            and any(isinstance(n, ast.Raise) for n in ast.walk(fn[0])) and any(isinstance(n, ast.Compare) for n in ast.walk(fn[0]))
+        sites += 1
+        if not ok:
+            problems.append("generic_value.py: clone() is no longer `copy.deepcopy` + comparison + raise")
+    except (OSError, SyntaxError) as e:
+        problems.append(f"generic_value.py: cannot be read ({e})")
+    ctx.coverage["correspondence"]["recording_sites_read_from_source"] = {"sites": sites, "problems": len(problems)}
+    ctx.coverage["traces_validated_against_impl"] += sites
+    for pr in problems[:5]:
+        ctx.report("the recording sites of the source no longer match the recorder of Model/Heap.v (every stored value = clone(compared value)): " + pr,
+                   {"kind": "static", "problem": pr}, no_input=True, kind="correspondence")
+
+
 def run(ctx: Ctx):
     ctx.coverage["rule"] = (
         "A: heaps of 1-5 list objects with sharing, a value, clone() of it, then 0-5 mutations (append, pop, setitem, clear; storing ints or other original objects): what the "
@@ -394,6 +462,7 @@ def run(ctx: Ctx):
         "(==, in, <=, >=, [k]; loops) run with create: the value in the rewritten file vs the values logged by an independent copy at comparison time. C: values whose "
         "__deepcopy__ is not equal to the original in every operation: UsageError and nothing recorded. non-trivial = >= 1 mutation and >= 2 objects")
     proof_step(ctx)
+    static_clone_check(ctx)
     corr_heap(ctx)
     corr_recorder(ctx)
     m = 240 if not ctx.thorough else 2400
